@@ -340,7 +340,7 @@ func init() {
 	Register("C02", "exploration", func(c *Ctx) error {
 		c.Rule = "seeded random configurations over creation method x argument form x position x fields x calls/withers x receiver kind x scope x getter, generated through the real binary, compiled against the pinned runtime and executed; every service fetched; object graphs compared with the reference container up to instance renaming. distinct = distinct YAML text; non-trivial = at least 4 probe operations judged and the configuration has a service with >=1 argument, field or call"
 		c.Assumptions = []string{"the fixture universe stands in for user code", "the reference container (engine/ref) is a faithful reading of docs/*.md and of the pinned runtime's documented behaviour", "configurations whose generated code does not compile are C01's business and are skipped here (counted)"}
-		n := c.Pick(800, 20000)
+		n := c.Pick(800, 10000)
 		if err := behaviourCheck(c, n, func(r *rand.Rand, i int) (*cfg.Config, []probe.Op) {
 			o := gen.DefaultOpts()
 			conf := gen.Behaviour(r, o)
